@@ -76,6 +76,10 @@ type Config struct {
 	Streams bool
 	// Tick offers "tick" (advance virtual time by one minute).
 	Tick bool
+	// EarlyLookups: the (static) lookups are added to the bus before the
+	// transport controller is, so their directives reach the controller while
+	// its transport is not constructed yet.
+	EarlyLookups bool
 	// Contract: the fake link honours link.Link's documented contract "Close:
 	// the link should call the HandleLinkLost callback exactly once".
 	Contract bool
@@ -343,6 +347,18 @@ func New(cfg *Config) *Sys {
 			s.mu.Unlock()
 			return &fakeTransport{id: id}, nil
 		})
+	if cfg.EarlyLookups {
+		for _, lk := range cfg.Lookups {
+			src := peer.ID("")
+			if lk.Src != "" {
+				src = s.peers[lk.Src]
+			}
+			s.lookups = append(s.lookups, &lookup{spec: lk, src: src, dst: s.peers[lk.Dst], sys: s})
+		}
+		for i := range s.lookups {
+			s.addLookup(i)
+		}
+	}
 	if _, err := b.AddController(s.ctx, s.ctrl, nil); err != nil {
 		s.broken = err.Error()
 		return s
@@ -353,12 +369,14 @@ func New(cfg *Config) *Sys {
 		s.byName[ls.Name] = l
 		s.state[ls.Name] = stNew
 	}
-	for _, lk := range cfg.Lookups {
-		src := peer.ID("")
-		if lk.Src != "" {
-			src = s.peers[lk.Src]
+	if !cfg.EarlyLookups {
+		for _, lk := range cfg.Lookups {
+			src := peer.ID("")
+			if lk.Src != "" {
+				src = s.peers[lk.Src]
+			}
+			s.lookups = append(s.lookups, &lookup{spec: lk, src: src, dst: s.peers[lk.Dst], sys: s})
 		}
-		s.lookups = append(s.lookups, &lookup{spec: lk, src: src, dst: s.peers[lk.Dst], sys: s})
 	}
 	return s
 }
@@ -376,7 +394,7 @@ func (s *Sys) Ready() {
 		s.broken = "transport constructor was not called"
 		return
 	}
-	if s.cfg.StaticLookups {
+	if s.cfg.StaticLookups && !s.cfg.EarlyLookups {
 		for i := range s.lookups {
 			s.addLookup(i)
 		}
